@@ -367,7 +367,7 @@ impl Model for M {
 
 pub fn variants(tier: Tier) -> Vec<(String, M, usize)> {
     vec![
-        ("node_schedules".to_string(), M { reverse_salts: false, pool_cap: 4 }, tier.pick(4, 6)),
+        ("node_schedules".to_string(), M { reverse_salts: false, pool_cap: 4 }, tier.pick(5, 6)),
         ("node_schedules_rev".to_string(), M { reverse_salts: true, pool_cap: 4 }, tier.pick(3, 5)),
     ]
 }
